@@ -407,7 +407,7 @@ func (c *ctx) genStructObject(depth int, id, force string) *Shape {
 	r := c.r
 	name := force
 	if name == "" {
-		name = wk.Pick(r, []string{"P1", "P1", "*P1", "P2", "P3", "P5", "*P5", "P6", "P7", "P8", "P9", "P12"})
+		name = wk.Pick(r, []string{"P1", "P1", "*P1", "P2", "P3", "P5", "*P5", "P6", "P7", "P8", "P9", "P12", "P13"})
 	}
 	s := &Shape{Kind: KObject, ID: id, Struct: name}
 	intT := func() *Shape { t := &Shape{Kind: KInt}; t.Min, t.Max = genIntBounds(r, false); return t }
@@ -469,6 +469,16 @@ func (c *ctx) genStructObject(depth int, id, force string) *Shape {
 		}
 	case "P9":
 		s.Props = []*Prop{{Name: "FieldByName", T: intT()}, {Name: "other", T: strT()}}
+	case "P13":
+		within := func(lo, hi int64) *Shape {
+			a, b := lo+r.I64n(hi-lo+1), lo+r.I64n(hi-lo+1)
+			if a > b {
+				a, b = b, a
+			}
+			return &Shape{Kind: KInt, Min: ip(a), Max: ip(b)}
+		}
+		s.Props = []*Prop{{Name: "port", T: within(0, 65535)}, {Name: "retries", T: within(0, 1<<40)},
+			{Name: "limit", T: within(0, 1<<62)}, {Name: "small", T: within(-128, 127)}}
 	case "P12":
 		s.Props = []*Prop{{Name: "mid", T: c.genStructObject(depth+1, c.nextID("P3o"), "P3")}, {Name: "other", T: c.genStructObject(depth+1, c.nextID("P3o"), "P3")}, {Name: "tag", T: strT()}}
 	}
@@ -513,9 +523,12 @@ func (c *ctx) genOneOf(depth int) *Shape {
 		s.Kind = KOneOfInt
 	}
 	n := 1 + r.Intn(3)
+	// member keys include the zero values of both key types ("" and 0)
 	skeys := []string{"alpha", "beta", "1", "", "Gamma"}
+	ikeys := []int64{-3, 0, 2, 7, 1 << 40}
+	off := r.Intn(len(skeys))
 	for i := 0; i < n; i++ {
-		m := &Member{KeyS: skeys[i], KeyI: int64(i*5 - 3)}
+		m := &Member{KeyS: skeys[(i+off)%len(skeys)], KeyI: ikeys[(i+off)%len(ikeys)]}
 		var obj *Shape
 		useRef := c.cfg.Refs && len(c.objIDs) > 0 && r.Chance(25)
 		if useRef && !s.Inlined {
@@ -744,7 +757,7 @@ func GenObjectStandalone(r *wk.Rand, cfg Cfg) *Shape {
 var pointerFields = map[string]map[string]bool{
 	"P1": {"c": true, "d": true}, "*P1": {"c": true, "d": true}, "P3": {"pinner": true, "n": true},
 	"P4b": {"z": true}, "P7": {"opt": true, "choice": true}, "P2": {"extra": true},
-	"P10": {"a": true, "b": true, "c": true}, "*P10": {"a": true, "b": true, "c": true}, "P11": {"n": true, "m": true}, "P12": {"tag": true},
+	"P10": {"a": true, "b": true, "c": true}, "*P10": {"a": true, "b": true, "c": true}, "P11": {"n": true, "m": true}, "P12": {"tag": true}, "P13": {"limit": true},
 }
 
 // AllAbsentable reports whether every property of a struct-mapped object is mapped to a field that can
